@@ -1,0 +1,24 @@
+//go:build verif
+
+// Verification hooks (build tag "verif"): thin exported wrappers around unexported
+// identifiers, used by the /verif harness. Add-only; with the tag off nothing changes.
+
+package gomatrixserverlib
+
+import (
+	"github.com/matrix-org/gomatrixserverlib/spec"
+)
+
+// VerifAllowerContext wraps the reusable auth checker that state resolution shares between events.
+type VerifAllowerContext struct{ a *allowerContext }
+
+// VerifNewAllowerContext exposes newAllowerContext.
+func VerifNewAllowerContext(provider AuthEventProvider, userIDQuerier spec.UserIDForSender, roomID spec.RoomID) *VerifAllowerContext {
+	return &VerifAllowerContext{a: newAllowerContext(provider, userIDQuerier, roomID)}
+}
+
+// Update exposes allowerContext.update.
+func (v *VerifAllowerContext) Update(provider AuthEventProvider) { v.a.update(provider) }
+
+// Allowed exposes allowerContext.allowed.
+func (v *VerifAllowerContext) Allowed(event PDU) error { return v.a.allowed(event) }
